@@ -334,7 +334,7 @@ let stops (r : string) : bool =
 let e2e_run (line : string) : string =
   let secs = split_on_string " | " line in
   let is_op sec = match fields sec with
-    | ("call" | "plaincall" | "getinfo" | "getdescr" | "resolver-getinfo" | "resolve") :: _ -> true | _ -> false in
+    | ("call" | "plaincall" | "typedcall" | "getinfo" | "getdescr" | "resolver-getinfo" | "resolve") :: _ -> true | _ -> false in
   let c = parse_svc_case (String.concat " | " (List.filter (fun sec -> not (is_op sec) && (match fields sec with "transport" :: _ -> false | _ -> true)) secs)) in
   let reg = (match c.reg with Some r -> r | None -> failwith "no svc") in
   let hs = handlers_of c in
@@ -397,6 +397,15 @@ let e2e_run (line : string) : string =
               | Some (RvReply (p, _)) -> out := ("call=ok " ^ (match p with None -> "N" | Some x -> "R" ^ hex_of_bytes x)) :: !out
               | _ -> out := ("call=" ^ s) :: !out; if stops s then stop := true)
            | _ -> out := "call=senderr" :: !out)
+        | "typedcall" :: m :: v :: _ ->
+          (match client_send N0 (bytes_of_hex m) (call_params (parse_value_desc v)) with
+           | SSent msg ->
+             exchange 0 msg;
+             let (s, r) = receive 0 in
+             (match r with
+              | Some (RvReply (_, _)) -> out := "tcall=ok" :: !out
+              | _ -> out := ("tcall=" ^ s) :: !out; if stops s then stop := true)
+           | _ -> out := "tcall=senderr" :: !out)
         | "getinfo" :: _ ->
           helper 0 "info" get_info_request info_schema (fun fs -> String.concat " " (List.map show_fval fs))
         | "getdescr" :: name :: _ ->
@@ -439,6 +448,8 @@ let reg_run (line : string) : string =
       | "info" :: _ ->
         let rep = direct (client_send N0 (org_varlink_service @ [n_of_int 46] @ m_GetInfo) PNone) in
         "info " ^ hex_of_bytes rep ^ (if !reg.r_running then " client " ^ client rep info_schema else "")
+      | "call" :: m :: _ ->
+        "call " ^ hex_of_bytes (direct (client_send N0 (bytes_of_hex m) PNone))
       | "descr" :: name :: _ ->
         let rep = direct (get_descr_request (bytes_of_hex name)) in
         "descr " ^ hex_of_bytes rep ^ (if !reg.r_running then " client " ^ client rep descr_schema else "")
